@@ -280,13 +280,14 @@ func units(tier string) []engine.Unit {
 		}
 		run(r, &cfg[col.SetLike[int]]{name: "SetLike[int]", universe: uni, class: func(v col.SetLike[int]) string { return fmt.Sprint(v.AsArray()) }})
 	})
+	add("large-operands", largeUnit)
 	return us
 }
 
 func init() {
 	engine.Register(&engine.Check{
 		ID:        "C15",
-		Technique: "bounded-exhaustive enumeration on the real Set class functions: all pairs of subsets of a 6-value universe (incl. the same object passed twice) x And/Or/Sans/Xor for int and string, all pairs over smaller universes for []int, any, sets of sets and for reversed/coarse caller-supplied collators; operand and result private dumps compared before/after, then mutated to expose sharing",
+		Technique: "bounded-exhaustive enumeration on the real Set class functions: all pairs of subsets of a 6-value universe (incl. the same object passed twice) x And/Or/Sans/Xor for int and string, all pairs over smaller universes for []int, any, sets of sets and for reversed/coarse caller-supplied collators; operand and result views compared before/after, then mutated to expose sharing; plus all ordered pairs of a family of 15 larger sets over 0..47 (sizes 0,1,16,17,20..48; overlapping, touching, nested, disjoint ranges; with and without the zero value) for int and string",
 		Rule:      "case = (element type, subset A, subset B, same-object flag, operation); distinct = distinct (A,B,alias) triples",
 		Assume:    []string{"operands whose collators disagree on equality are not generated (no defined result); operands ordered differently with the same equality are"},
 		Budget:    func(string) time.Duration { return 4 * time.Minute },
